@@ -82,6 +82,9 @@ func (w *Worker) intrinsicFiles(s *State, f *Frame, name string, fn *ssa.Functio
 // intrinsicEnv: verifrt functions of the modelled environments.
 func (w *Worker) intrinsicEnv(s *State, f *Frame, name string, args []Value, adv func(Value) bool) bool {
 	switch name {
+	case "HookCall":
+		s.ghost["hook/"+args[0].(string)] = args[1]
+		return adv(nil)
 	case "SetFiles":
 		s.ghost["files"] = args[0]
 		return adv(nil)
